@@ -17,7 +17,7 @@ THEOREMS = [
     "BSVerif.Props.C03.key_compare_is_integer_equality",
     "BSVerif.Scope.VarKey.eqKeyNoGuard_refuted",
 ]
-RULE = ("random MsgPack documents (objects with distinct string/int keys; scalar, array and object values, depth <= 3) x request "
+RULE = ("CSV tables read by column name in any order / twice / absent through both CSV readers; random MsgPack documents (objects with distinct string/int keys; scalar, array and object values, depth <= 3) x request "
         "histories (reverse/shuffled/partial orders, repeated and absent keys, nested open/partial read/close, VisitKeys, sentinel after "
         "the object) x {memory, stream} x policies, on the real read scopes; stream documents shifted across the 256-byte cache "
         "boundary; plus CBinaryStreamReader position histories; non-trivial = history with >= 3 requests; distinct = distinct op lines")
@@ -34,6 +34,12 @@ def gen(tier, rng, boost=1):
     ops = gen_scope_ops(tier, rng, boost)
     ops += gen_bs(tier, rng, boost)[: (150 if tier == "quick" else 3000)]
     ops += keyeq_ops(tier, rng)
+    # CSV rows are objects too: named columns requested in any order / repeatedly / absent, memory and stream reader,
+    # quoted fields at every offset around the chunk boundary (C09's generator; judged by the CSV oracle)
+    from .csvgen import gen_tables_read, gen_boundary, CHUNK
+    q = tier == "quick"
+    ops += gen_tables_read(rng, (150 if q else 3000) * boost, full_scripts_every=2)
+    ops += gen_boundary(rng, range(-3, 4) if q else range(-16, 17), boundaries=(CHUNK,) if q else (CHUNK, 2 * CHUNK), tier=tier)
     return ops
 
 
